@@ -2807,6 +2807,12 @@ func hijackConnHandler(ctx *RequestCtx, r io.Reader, c net.Conn, s *Server, h Hi
 	if !s.KeepHijackedConns {
 		c.Close()
 		s.releaseHijackConn(hjc)
+	} else if _, ok := r.(*bufio.Reader); ok && ctx.fbr.c != nil {
+		// With ReduceMemoryUsage the escaped buffered reader reads the connection
+		// through ctx.fbr. The ctx therefore stays with the kept connection:
+		// resetting it would make later reads dereference a nil connection, and
+		// reusing it for another connection would make them read that one.
+		return
 	}
 	s.releaseCtx(ctx)
 }
